@@ -56,9 +56,10 @@ def main():
                         "domain": {"nx": nx, "ny": ny, "xmax": xmax, "ymax": ymax, "nz": 12, "modes": [64, 64], "ref_lat": ref_lat, "ref_lon": ref_lon},
                         "towers": [{"name": "c", "lat": ref_lat + dlat, "lon": ref_lon + dlon, "z_m": 3.0},
                                    {"name": "q", "lat": ref_lat + sy * 0.37 * dlat, "lon": ref_lon + sx * 0.61 * dlon, "z_m": 3.0}],
-                        "met": {"ustar": 0.35, "mol": mol, "wind_speed": speed, "wind_dir": d},
+                        "met": {"ustar": 0.1 * speed + 0.05, "mol": mol, "wind_speed": speed, "wind_dir": d},
                         "solver": {"closure": closure, "footprint": True, "precision": "double"},
                     }
+                    # ustar grows with the speed: the roughness length, and with it the resolution of the footprint, stays put
                     cfg = parse_config_dict(raw)
                     tw, tq = cfg.towers
                     u, v = compute_wind_fields(speed, d)
@@ -66,9 +67,14 @@ def main():
                     if abs(math.hypot(u, v) - speed) > 1e-12 * speed:
                         chk.violation("wind decomposition does not preserve the speed: |(u,v)| = %r for speed %r" % (math.hypot(u, v), speed), sc, klass={"check": "speed"})
                     res = run_bldfm_single(cfg, tw)
-                    z, prof = vertical_profiles(n=12, meas_height=3.0, wind=(u, v), ustar=0.35, mol=mol, closure=closure)
+                    z, prof = vertical_profiles(n=12, meas_height=3.0, wind=(u, v), ustar=0.1 * speed + 0.05, mol=mol, closure=closure)
                     X, Y, _ = res["grid"]
                     f = np.asarray(res["flx"], dtype=float)
+                    # centre of mass over a disc centred on the tower: the grid window itself is not symmetric about the
+                    # tower (one more row/column on one side, oblong domains), which biases the centroid of a footprint
+                    # with long tails; a disc is symmetric about every wind axis ("resolved domain centred on the tower")
+                    rad = min(xmax, ymax) / 2.0 - max(xmax / nx, ymax / ny)
+                    f = np.where((X - tw.x) ** 2 + (Y - tw.y) ** 2 <= rad ** 2, f, 0.0)
                     tot = f.sum()
                     cx = float((f * (X - tw.x)).sum() / tot)
                     cy = float((f * (Y - tw.y)).sum() / tot)
@@ -87,6 +93,40 @@ def main():
                     obs.append(o)
                     meta.append(dict(sc, bearing_to_centroid=b_c, bearing_error_deg=err, wind_bearing=b_w))
                     chk.case((k, closure, mol, nx))
+    # the same convention through the series drivers: a direction sweep in which ONLY wind_dir varies from record to record
+    from bldfm import run_bldfm_timeseries, run_bldfm_multitower
+
+    order = [int(x) for x in rng.permutation(24)]
+    for closure in closures[:2] if t == "quick" else closures:
+        nx, ny, xmax, ymax = grids[0]
+        ref_lat, ref_lon = 48.0, 9.0
+        dlat = math.degrees((ymax / 2) / R)
+        dlon = math.degrees((xmax / 2) / (R * math.cos(math.radians(ref_lat))))
+        raw = {
+            "domain": {"nx": nx, "ny": ny, "xmax": xmax, "ymax": ymax, "nz": 12, "modes": [64, 64], "ref_lat": ref_lat, "ref_lon": ref_lon},
+            "towers": [{"name": "c", "lat": ref_lat + dlat, "lon": ref_lon + dlon, "z_m": 3.0}],
+            "met": {"ustar": 0.35, "mol": -80.0, "wind_speed": 3.0, "wind_dir": [15.0 * k for k in order]},
+            "solver": {"closure": closure, "footprint": True, "precision": "double"},
+        }
+        cfg = parse_config_dict(raw)
+        tw = cfg.towers[0]
+        series = run_bldfm_timeseries(cfg, tw) if closure != "MOSTM" else run_bldfm_multitower(cfg)[tw.name]
+        for k, res in zip(order, series):
+            X, Y, _ = res["grid"]
+            f = np.asarray(res["flx"], dtype=float)
+            rad = min(xmax, ymax) / 2.0 - max(xmax / nx, ymax / ny)
+            f = np.where((X - tw.x) ** 2 + (Y - tw.y) ** 2 <= rad ** 2, f, 0.0)
+            cx = float((f * (X - tw.x)).sum() / f.sum())
+            cy = float((f * (Y - tw.y)).sum() / f.sum())
+            s_c, b_c = sector(cx, cy)
+            d = 15.0 * k
+            u, v = compute_wind_fields(3.0, d)
+            s_w, b_w = sector(u, v)
+            o = {"k": k, "wind": s_w, "prof_zm": s_w, "prof_top": s_w, "cent": s_c, "tower_sx": 2, "tower_sy": 2, "want_sx": 2, "want_sy": 2, "x_east": True, "y_north": True}
+            obs.append(o)
+            meta.append({"kind": "orientation", "wind_dir": d, "closure": closure, "mol": -80.0, "grid": [nx, ny, xmax, ymax], "speed": 3.0, "path": "series driver, only wind_dir varies",
+                         "bearing_to_centroid": b_c, "bearing_error_deg": (b_c - d + 180.0) % 360.0 - 180.0, "wind_bearing": b_w})
+            chk.case((k, closure, "series"))
     d_ = common.scratch("trace_orientation")
     tf = os.path.join(d_, "obs.json")
     json.dump(obs, open(tf, "w"))
